@@ -388,8 +388,11 @@ impl<F: Future + Unpin> Future for PollOnce<'_, F> {
     }
 }
 
-fn run_thread(t: usize, ops: &[ROp], sh: &Shared, rt: Option<&tokio::runtime::Runtime>, free_handle: Option<&tokio::runtime::Handle>) -> (Vec<Rec>, Vec<String>) {
+type Dones = Vec<(usize, Arc<AtomicU64>)>;
+
+fn run_thread(t: usize, ops: &[ROp], sh: &Shared, rt: Option<&tokio::runtime::Runtime>, free_handle: Option<&tokio::runtime::Handle>) -> (Vec<Rec>, Vec<String>, Dones) {
     let mut recs = Vec::with_capacity(ops.len());
+    let mut dones: Dones = vec![];
     let mut bad = vec![];
     let mut handles: Vec<(REntry, u64, u64)> = vec![];
     let cache = &sh.cache;
@@ -471,6 +474,7 @@ fn run_thread(t: usize, ops: &[ROp], sh: &Shared, rt: Option<&tokio::runtime::Ru
                     free_handle.expect("free mode runtime").block_on(fut)
                 };
                 let origin_done = done.load(Ordering::SeqCst);
+                dones.push((i, done.clone()));
                 match res {
                     Ok(e) => {
                         let v = check_entry(&e, k, "get_or_fetch", &mut bad);
@@ -528,7 +532,7 @@ fn run_thread(t: usize, ops: &[ROp], sh: &Shared, rt: Option<&tokio::runtime::Ru
     }
     drop(handles);
     let _ = sh.universe;
-    (recs, bad)
+    (recs, bad, dones)
 }
 
 fn has_fetch(program: &[Vec<ROp>]) -> bool {
@@ -575,7 +579,7 @@ pub fn execute(cfg: &RCfg, program: &[Vec<ROp>], sched: Option<(Vec<u16>, Option
     let sched = sched.map(|(choices, bound)| Arc::new(Sched::new(threads, choices, bound)));
     let fetches = has_fetch(program);
     let start = Arc::new(std::sync::Barrier::new(threads));
-    let (rtx, rrx) = std::sync::mpsc::channel::<(usize, Vec<Rec>, Vec<String>, Option<Failure>)>();
+    let (rtx, rrx) = std::sync::mpsc::channel::<(usize, Vec<Rec>, Vec<String>, Option<Failure>, Dones)>();
     for (t, ops) in program.iter().enumerate() {
         let sh = sh.clone();
         let sched = sched.clone();
@@ -615,8 +619,8 @@ pub fn execute(cfg: &RCfg, program: &[Vec<ROp>], sched: Option<(Vec<u16>, Option
                     s.finish(t);
                 }
                 let _ = match (r, r2) {
-                    (Ok((recs, bad)), Ok(())) => rtx.send((t, recs, bad, None)),
-                    (Err(f), _) | (_, Err(f)) => rtx.send((t, vec![], vec![], Some(f))),
+                    (Ok((recs, bad, dones)), Ok(())) => rtx.send((t, recs, bad, None, dones)),
+                    (Err(f), _) | (_, Err(f)) => rtx.send((t, vec![], vec![], Some(f), vec![])),
                 };
             }),
         );
@@ -625,15 +629,22 @@ pub fn execute(cfg: &RCfg, program: &[Vec<ROp>], sched: Option<(Vec<u16>, Option
     if let Some(s) = &sched {
         s.kick_off();
     }
-    let mut per: Vec<(usize, Vec<Rec>, Vec<String>, Option<Failure>)> = vec![];
+    let mut per: Vec<(usize, Vec<Rec>, Vec<String>, Option<Failure>, Dones)> = vec![];
     for _ in 0..threads {
         match rrx.recv() {
             Ok(x) => per.push(x),
-            Err(_) => per.push((usize::MAX, vec![], vec![], Some(Failure::new("harness-panic", "executor thread died")))),
+            Err(_) => per.push((usize::MAX, vec![], vec![], Some(Failure::new("harness-panic", "executor thread died")), vec![])),
         }
     }
     per.sort_by_key(|x| x.0);
-    let per: Vec<(Vec<Rec>, Vec<String>, Option<Failure>)> = per.into_iter().map(|(_, a, b, c)| (a, b, c)).collect();
+    let mut all_dones: Vec<(usize, usize, Arc<AtomicU64>)> = vec![];
+    let per: Vec<(Vec<Rec>, Vec<String>, Option<Failure>)> = per
+        .into_iter()
+        .map(|(t, a, b, c, d)| {
+            all_dones.extend(d.into_iter().map(|(i, x)| (t, i, x)));
+            (a, b, c)
+        })
+        .collect();
     let mut recs = vec![];
     let mut bad = vec![];
     let mut panics = vec![];
@@ -664,6 +675,17 @@ pub fn execute(cfg: &RCfg, program: &[Vec<ROp>], sched: Option<(Vec<u16>, Option
                 bad.extend(b);
             }
             Err(f) => panics.push(f),
+        }
+    }
+    // A fetch task is not synchronised with the caller that started it once that caller has been answered by someone
+    // else: its origin may complete (and its value be inserted) after the call returned. Sample "did the origin ever
+    // produce its value, and when" only now, after every lookup of this execution.
+    for (t, i, d) in &all_dones {
+        let v = d.load(Ordering::SeqCst);
+        if let Some(r) = recs.iter_mut().find(|r| r.t == *t && r.i == *i) {
+            if let RRet::Fetched { origin_done, .. } = &mut r.ret {
+                *origin_done = v;
+            }
         }
     }
     let (trace, aborted, switches) = match &sched {
